@@ -25,6 +25,18 @@ def strip_comments(txt):
     return txt
 
 
+def canon_c(txt):
+    """spacing-insensitive form: blanks and tabs are dropped except between two identifier characters; newlines stay"""
+    out = []
+    for tok in re.findall(r"[A-Za-z_0-9\.]+|[ \t]+|\n|.", txt, flags=re.S):
+        if tok[0] in " \t":
+            continue
+        if out and out[-1] and (out[-1][-1].isalnum() or out[-1][-1] == "_") and (tok[0].isalnum() or tok[0] == "_"):
+            out.append(" ")
+        out.append(tok)
+    return "".join(out)
+
+
 def match_brace(txt, i):
     assert txt[i] == "{"
     depth = 0
@@ -529,7 +541,7 @@ def analyse_settings_writers():
     writers = []
     seen = 0
     for f in SETTINGS_FILES:
-        txt = strip_comments(open(os.path.join(REPO, f)).read())
+        txt = canon_c(strip_comments(open(os.path.join(REPO, f)).read()))
         for m in re.finditer(r"^[A-Za-z_][\w \t\*]*?\b(\w+)\s*\(([^;{}]*?)\)\s*\{", txt, flags=re.M | re.S):
             name, params = m.group(1), m.group(2)
             if name in ("if", "for", "while", "switch"):
@@ -701,7 +713,7 @@ def analyse_region(kernel, R, pre, inner):
         if m is main[0]: continue
         if m.start()>main[0].start(): raise TranslateError(where+": loop over ci after the cell loop")
         bb=m.end()-1; sk=inner[bb:match_brace(inner,bb)+1]
-        if not re.fullmatch(r"\{\s*wps\[ri_width \+ wpsi\]\s*=\s*-?INFINITY;\s*wpsi\+\+;\s*\}",sk):
+        if not re.fullmatch(r"\{\s*wps\[ri_width\+wpsi\]\s*=\s*-?INFINITY;\s*wpsi\+\+;\s*\}",sk):
             raise TranslateError(where+": skip loop body %r"%sk)
         c=norm(m.group(1))
         if c=="ci<sc": skips.append("sc")
@@ -748,7 +760,7 @@ def analyse_region(kernel, R, pre, inner):
             "off_diag":offs[1][1],"off_up":offs[2][1],"head_fill":head in iloops,"row0_store":"ri_width" in idx,"skips":skips}
 
 def analyse_fill():
-    txt=strip_comments(open(os.path.join(REPO,"src/DTAIDistanceC/DTAIDistanceC/dd_dtw.c")).read())
+    txt=canon_c(strip_comments(open(os.path.join(REPO,"src/DTAIDistanceC/DTAIDistanceC/dd_dtw.c")).read()))
     res={}
     for k in FILL_KERNELS:
         body=fill_func_body(txt,k)
@@ -826,7 +838,7 @@ def leaves(block):
     return out
 
 def analyse_trace():
-    txt=strip_comments(open(os.path.join(REPO,"src/DTAIDistanceC/DTAIDistanceC/dd_dtw.c")).read())
+    txt=canon_c(strip_comments(open(os.path.join(REPO,"src/DTAIDistanceC/DTAIDistanceC/dd_dtw.c")).read()))
     res=[]
     for fn in TRACE_FUNCS:
         body=trace_func_body(txt,fn)
@@ -889,7 +901,7 @@ def analyse_trace():
 
 def analyse_trace_init():
     """dtw_best_path: the slot of the corner cell (l1, l2) computed before the loops"""
-    txt=strip_comments(open(os.path.join(REPO,"src/DTAIDistanceC/DTAIDistanceC/dd_dtw.c")).read())
+    txt=canon_c(strip_comments(open(os.path.join(REPO,"src/DTAIDistanceC/DTAIDistanceC/dd_dtw.c")).read()))
     body=trace_func_body(txt,"dtw_best_path")
     ms=list(re.finditer(r"idx_t\s+ri_width\s*=\s*p\.width\s*\*\s*rip\s*;",body))
     w=re.search(r"while\s*\(\s*rip\s*>\s*p\.ri3",body)
@@ -970,7 +982,7 @@ def exec_block2(text,state,where,tracked):
         TRACKED = old
 
 def analyse_expand():
-    txt=strip_comments(open(os.path.join(REPO,"src/DTAIDistanceC/DTAIDistanceC/dd_dtw.c")).read())
+    txt=canon_c(strip_comments(open(os.path.join(REPO,"src/DTAIDistanceC/DTAIDistanceC/dd_dtw.c")).read()))
     res=[]
     for fn in EXPAND_FUNCS:
         m=re.search(r"^void\s+%s\s*\(([^;{}]*?)\)\s*\{"%re.escape(fn),txt,flags=re.M|re.S)
